@@ -5,7 +5,7 @@ import os
 TXN_FIXED = "webhooks,syncdb,settings,pin"
 PROP = dict(
     engine="txn", harness="txn", driver="drv_txn",
-    driver_args=["--fixed=" + os.environ.get("VERIF_TXN_FIXED", TXN_FIXED)],
+    driver_args=["--fixed=" + os.environ.get("VERIF_TXN_FIXED", TXN_FIXED), "--focus=c18/,ctor_fact,vop"],
     props=["Hostd.Props.C18"],
     flag_filter=r"^c18/|^vop|^ctor_fact",
     quick=dict(n=20, len=14, shards=10, timeout=400, extra=dict(c18="1")),
